@@ -8,6 +8,8 @@ func init() {
 	vHarnesses["VH_C01_ops1"] = VH_C01_ops1
 	vHarnesses["VH_C01_ops3"] = VH_C01_ops3
 	vHarnesses["VH_C01_cap"] = VH_C01_cap
+	vHarnesses["VH_C01_history"] = VH_C01_history
+	vHarnesses["VH_C01_lazyrec"] = VH_C01_lazyrec
 }
 
 // Templates: one per VM opcode / builtin / method reachable from syntax,
@@ -131,6 +133,67 @@ func VH_C01_cap() {
 	err := vm.Run(progs[k])
 	vReach("ran")
 	vObserveAll(vm, err)
+}
+
+// recursion through code that is compiled on demand (the callee's VM is
+// created by the call): default-sides expressions that roll a default-sides
+// die again, and function / computed values built by the host without code
+//
+//vh:prop=C01 tiers=quick,thorough sigkeys=case depth_is_violation=1 maxdepth=4000 maxsteps=300000000 budget_s=900 bounds="endless recursion through code compiled on demand - default-sides expressions 'd', 'x || d' and a script function that rolls d; function and computed values built by the host without code; RunExpr - under op budget 3000: the evaluation ends with an error within 4000 Go frames (the unchanged code needs < 600), never with stack exhaustion"
+func VH_C01_lazyrec() {
+	lazy := []struct{ dflt, prelude, src string }{
+		{"d", "", "d"},
+		{"x || d", "", "2d + 1"},
+		{"面数()", "func 面数() { return d }", "d"},
+		{"", "#fn", "fn2()"},
+		{"", "#computed", "v2"},
+		{"", "#runexpr", ""},
+	}
+	lz := lazy[vChoice("case", len(lazy))]
+	vm := vNewVM()
+	vm.Config.OpCountLimit = 3000
+	vm.Config.DefaultDiceSideExpr = lz.dflt
+	switch lz.prelude {
+	case "":
+	case "#fn":
+		vm.Attrs.Store("fn2", NewFunctionValRaw(&FunctionData{Expr: "fn2() + 1", Name: "fn2"}))
+	case "#computed":
+		vm.Attrs.Store("v2", NewComputedVal("v2 + 1"))
+	case "#runexpr":
+		vm.Attrs.Store("fn2", NewFunctionValRaw(&FunctionData{Expr: "fn2() + 1", Name: "fn2"}))
+		_, err := vm.RunExpr("fn2() + fn2()", false)
+		vReach("ran")
+		vAssert(err != nil, "endless-recursion-ends-with-the-budget-error")
+		vObserveAll(vm, err)
+		return
+	default:
+		_ = vm.Run(lz.prelude)
+	}
+	err := vm.Run(lz.src)
+	vReach("ran")
+	vAssert(err != nil, "endless-recursion-ends-with-the-budget-error")
+	vObserveAll(vm, err)
+}
+
+// what a host does between user messages: evaluate, show, evaluate the next
+// text on the same VM (which may fail to parse or fail while running), show
+var vC01HistFirst = []string{"4d6kh3 + 2d4", "x = 5; x + 2d6", "`a{2d6}b`", "func fn1() { 2d6 }; fn1() + d20", "&v1 = 2d6; v1 + 1", "1 + 2"}
+var vC01HistSecond = []string{"(", "1/0", "[1][5]", "x.y.z", "7", "7 +", "", "d", "'", "nosuch(1)", "2d6", "v1", "^st力量60"}
+
+//vh:prop=C01 tiers=quick,thorough sigkeys=first,second,third summaries=Roll:roll-contract unwind=6 unwind_ok=1 budget_s=900 thorough:P.third=1 bounds="histories on one VM: one of 6 programs that record process-text spans (dice, variables, templates, functions, computed values), then one of 13 follow-up texts (syntax errors, run-time errors, the empty text, shorter and longer programs, an st command), then (thorough) a third text; all observers after every step, dice symbolic Roll-contract values"
+func VH_C01_history() {
+	vm := vNewVM()
+	vm.Config.OpCountLimit = 30000
+	vm.Config.CallbackSt = func(string, string, *VMValue, *VMValue, string, string) {}
+	err := vm.Run(vC01HistFirst[vChoice("first", len(vC01HistFirst))])
+	vObserveAll(vm, err)
+	err = vm.Run(vC01HistSecond[vChoice("second", len(vC01HistSecond))])
+	vReach("second")
+	vObserveAll(vm, err)
+	if vParam("third", 0) == 1 {
+		err = vm.Run(vC01HistSecond[vChoice("third", len(vC01HistSecond))])
+		vObserveAll(vm, err)
+	}
 }
 
 //vh:prop=C01 tiers=quick,thorough sigkeys=cfg overrides=formatFriendlyError summaries=Roll:roll-log unwind=400 unwind_ok=1 maxsteps=8000000 budget_s=1800 quick:P.n=2 thorough:P.n=3 bounds="every source text of exactly n bytes over ALL byte values 0x00-0xFF (n=2 quick, n=3 thorough; invalid UTF-8 included; shorter texts arise as prefixes followed by a rejected or ignored byte), parsed, run and observed (value, repr, process text, bytecode listing, matched / rest text, error text) and run a second time on the same VM, under 4 configurations (default; every dice family on with min mode; DisableStmts+DisableNDice+DisableBitwiseOp; IgnoreDiv0 with a default-sides expression and budgets 200 / 100): no panic site is feasible; dice are fixed low faces; syntax-error formatting is stubbed here (C19 covers it)"
